@@ -15,6 +15,7 @@ int g_trace = 0;
 Arena g_arena;
 __thread GuardCtx *t_guard = nullptr;
 segv_hook_t g_segv_hook = nullptr;
+void (*g_crash_hook)(const char *sym, void *addr) = nullptr;
 LibInfo g_lib;
 volatile uint64_t g_call_seq = 0;
 __thread int t_watchdog_pause = 0; // >0 while the thread is parked by the scheduler seam
@@ -227,7 +228,18 @@ static void on_fault(int sig, siginfo_t *si, void *uc)
                 g->armed = 0;
                 siglongjmp(g->jb, 1);
         }
-        // not armed: infrastructure problem
+        // not armed.  If the faulting instruction is library code, the library crashed in a call the harness does not guard
+        // (init / reset / set_hufftables ...): that is a verdict on the library, not an infrastructure problem.
+        if (g_crash_hook && sig != SIGABRT) {
+                ucontext_t *u = (ucontext_t *) uc;
+                uintptr_t ip = u->uc_mcontext.gregs[REG_RIP];
+                if (ip >= g_lib.text_lo && ip < g_lib.text_hi) {
+                        FaultInfo fi;
+                        fi.cls = FC_STRAY;
+                        fill_sym(fi, uc);
+                        g_crash_hook(fi.sym, si ? si->si_addr : nullptr);
+                }
+        }
         char b[160];
         int n = snprintf(b, sizeof b, "INFRA stray signal %d addr=%p outside guarded region\n", sig, si ? si->si_addr : 0);
         if (write(2, b, n)) {
